@@ -30,8 +30,10 @@ NON_EMPTY_STRING = ".+"
 COMPONENT_MARKER = "component"
 NON_EMPTY_WHITESPACE = r"\s+"
 OPTIONAL_BLANKS = r"[ \t]*"
-NON_EMPTY_CHAR_OR_DIGIT = r"(\w|\d|\.)+"
-NON_EMPTY_CHAR_OR_DIGIT_OR_WHITESPACE = r"(\w|\d|\.|\s)+"
+# module names are identifiers: these may contain non-ASCII characters that are not word characters for the re module
+# (combining marks, the middle dot)
+NON_EMPTY_CHAR_OR_DIGIT = r"(\w|\d|\.|[^\x00-\x7F])+"
+NON_EMPTY_CHAR_OR_DIGIT_OR_WHITESPACE = r"(\w|\d|\.|\s|[^\x00-\x7F])+"
 START_LINE = "^"
 END_LINE = "$"
 BRACKET_OPEN = r"\["
